@@ -52,4 +52,5 @@ def gen_value(tape, depth: int = 0) -> Any:
         return [gen_value(tape, depth + 1) for _ in range(tape.draw(3, "val.len"))]
     if k == 5:
         return {tape.choice(["k1", "k2", "k3"], "val.key"): gen_value(tape, depth + 1) for _ in range(tape.draw(3, "val.dlen"))}
-    return 1.5
+    # floats that compare equal to ints / bools but are a different JSON type
+    return [1.5, 1.0, 0.0][tape.draw(3, "val.float")]
